@@ -165,12 +165,19 @@ func genHaulTrace(r *RNG, mode string, probes bool) *Trace {
 		}
 		return t
 	}
-	// direct mode: fill, parse to empty, shrink, probe
-	fed := 0
+	// direct mode: feed pieces, parse to empty, probe; shrink when the buffer
+	// is full (a caller that shrinks only then lets the buffer reallocate while
+	// much parsed data is still in front of the parse position) or, in half
+	// of the runs, after every piece
+	piece := maxInt(1, bc.BufferSize/r.Pick(1, 1, 2, 8, 32))
+	eager := r.Chance(0.5)
+	fed, held := 0, 0
 	for fed < n && len(t.Ops) < 60000 {
-		t.Ops = append(t.Ops, Op{K: r.pickStr("Write", "Write", "ReadFrom"), N: bc.BufferSize})
-		fed += maxInt(1, bc.BufferSize-bc.ShrinkSize)
-		for i := bc.BufferSize/bl + 1; i > 0; i-- {
+		t.Ops = append(t.Ops, Op{K: r.pickStr("Write", "Write", "ReadFrom"), N: piece})
+		got := minInt(piece, bc.BufferSize-held)
+		held += got
+		fed += maxInt(got, 1)
+		for i := got/bl + 1; i > 0; i-- {
 			op := Op{K: "Parse", Re: true}
 			if r.Chance(0.05) {
 				op.K = "ParseNil"
@@ -181,9 +188,14 @@ func genHaulTrace(r *RNG, mode string, probes bool) *Trace {
 		if probes && r.Chance(0.5) {
 			t.Ops = append(t.Ops, genReadAtOp(r, bc.BufferSize))
 		}
-		t.Ops = append(t.Ops, Op{K: "Shrink"})
-		if probes && r.Chance(0.5) {
-			t.Ops = append(t.Ops, genReadAtOp(r, bc.BufferSize))
+		if eager || held >= bc.BufferSize {
+			t.Ops = append(t.Ops, Op{K: "Shrink"})
+			if held > bc.ShrinkSize {
+				held = bc.ShrinkSize
+			}
+			if probes && r.Chance(0.5) {
+				t.Ops = append(t.Ops, genReadAtOp(r, bc.BufferSize))
+			}
 		}
 	}
 	return t
